@@ -41,7 +41,7 @@ def build(macro, depths, flavour=None, handler=None, lets=(), rich=False, reader
     readers = set(readers)
     n = len(depths)
     if gated:
-        return build_gated(macro, depths, flavour, handler, gated)
+        return build_gated(macro, depths, flavour, handler, gated, hexpr_ev=hexpr_ev)
 
     def name(b):
         return "n%d" % b
@@ -191,7 +191,7 @@ def gate2_id(b, k):
     return 32 + slot(b, k)
 
 
-def build_gated(macro, depths, flavour, handler, mode):
+def build_gated(macro, depths, flavour, handler, mode, hexpr_ev=False):
     """async profile programs whose every (branch, step) waits at a harness-controlled gate before its event.
     mode: 'one' | 'two0' (branch 0 waits at two gates per step) | 'skip0' (branch 0 has no pending point) |
     'cap0' (step 0 carries block operands: branch 0's initial value and a captured callback in every branch) |
@@ -228,7 +228,15 @@ def build_gated(macro, depths, flavour, handler, mode):
             else:
                 items.append(Op("|>", [B('ev0("c.0.%d.1"); |v: i32| v' % b)]))
         for k in range(1, d):
-            if is_try:
+            if mode == "opnd":
+                # the OPERAND expression of every later step has a visible evaluation (and is a panic position of its own, input slot
+                # 40 + slot): operands of a step are evaluated when the step starts, by whoever drives the macro's own future
+                cbt = "opnd(\"%d.%d.o\", %d, |v: i32| %s)" % (b, k, 40 + slot(b, k), fut(k, "v + 1"))
+                if is_try:
+                    items.append(Op("=>", [O(cbt)], deferred=True))
+                else:
+                    items.append(Op("..", [O("then(%s)" % cbt)], deferred=True))
+            elif is_try:
                 items.append(Op("=>", [O("|v: i32| %s" % fut(k, "v + 1"))], deferred=True))
             elif mode == "arrow":
                 items.append(Op("->", [O("gvia::<%d, %d, _>" % (b, k))], deferred=True))
@@ -257,7 +265,11 @@ def build_gated(macro, depths, flavour, handler, mode):
             body = "%s %s" % (log, vec)
         else:
             body = "async move { gate(62).await; %s Ok::<Vec<i32>, i32>(%s) }" % (log, vec)
-        h = (handler, "|%s| { %s }" % (args, body), None)
+        htext = "|%s| { %s }" % (args, body)
+        if hexpr_ev:
+            # the handler OPERAND has a visible evaluation: like every user expression it is evaluated only once the future is polled
+            htext = "{ ev0(\"hx.0.e\"); %s }" % htext
+        h = (handler, htext, None)
     return Program(macro, branches, handler=h, flavour="Res" if is_try else None)
 
 
